@@ -4,6 +4,9 @@ from .. import core, ora, lbz, gen, defects, dcorpus, bzsynth as bs
 
 LEVEL = 'fault_enumeration'
 
+GOOD_PLAIN = [b'first intact operand\n' * 40, b'']
+GOOD_BZ = [bz2.compress(GOOD_PLAIN[0], 1), bz2.compress(GOOD_PLAIN[1], 9)]
+
 
 def judge(ctx, lb, item):
     data, origin, filemode, w = item
@@ -27,12 +30,22 @@ def judge(ctx, lb, item):
         name = 'f.bz2'
         with open(os.path.join(d, name), 'wb') as f:
             f.write(data)
-        argv = [lb, '-d', '-n', str(w), name]
+        # a seeded half of the FILE-operand runs puts one or two intact operands in front of the damaged one: the
+        # outcome for the damaged operand must not depend on what the same process did before
+        ngood = (len(data) + w) % 3 if filemode == 2 else 0
+        want = {name: data}
+        for g in range(ngood):
+            want['g%d' % g] = GOOD_PLAIN[g]
+            with open(os.path.join(d, 'g%d.bz2' % g), 'wb') as f:
+                f.write(GOOD_BZ[g])
+        argv = [lb, '-d', '-n', str(w)] + ['g%d.bz2' % g for g in range(ngood)] + [name]
         r = core.run(argv, cwd=d, timeout=120)
         left = sorted(os.listdir(d))
-        info = dict(origin=origin, argv=argv, ref_reason=reason, directory_after=left)
-        ok_state = left == [name] and open(os.path.join(d, name), 'rb').read() == data
+        info = dict(origin=origin, argv=argv, ref_reason=reason, directory_after=left, intact_operands_before=ngood)
+        ok_state = left == sorted(want) and all(open(os.path.join(d, k), 'rb').read() == v for k, v in want.items())
         shutil.rmtree(d, ignore_errors=True)
+        if ngood:
+            ctx.count('damaged_operand_after_intact_operands')
     if lbz.bad_ending(ctx, r, 'decompress damaged input (%s; %s)' % (origin, reason), files, info):
         return
     rk = reason.replace(' ', '-')
@@ -49,13 +62,18 @@ def judge(ctx, lb, item):
     if filemode:
         ctx.count('file_operand_runs')
         if not ok_state:
-            ctx.violation('file-state:' + rk, 'after rejecting FILE operand the directory holds %s (want only the intact input) (%s)'
-                          % (left, origin), files, info)
+            ctx.violation('file-state:' + rk, 'after rejecting FILE operand the directory holds %s (want %s with the damaged input intact) (%s)'
+                          % (left, sorted(want), origin), files, info)
             return
     ctx.nt(hashlib.sha1(data).hexdigest())
     diag = r.err.decode(errors='replace').strip().split('\n')[0].split(': ')[-1][:40]
     ctx.count('pair:%s -> %s' % (reason, diag))
     ctx.sample(dict(origin=origin, size=len(data), ref_reason=reason, workers=w, file_operand=filemode, stderr=r.err.decode(errors='replace').strip()[:120]), cap=6)
+
+
+def fm(rnd):
+    x = rnd.random()
+    return 0 if x >= 0.14 else 1 if x < 0.07 else 2
 
 
 def trunc_corpus(ctx, rnd, lb):
@@ -89,8 +107,8 @@ def trunc_corpus(ctx, rnd, lb):
 
 def run(ctx):
     ctx.rule = ('EVERY truncation point (every byte length 0..len-1) of each corpus stream (exhaustive per file), every single-defect '
-                'stream kind, field-level and byte-level mutants, empty and 1-3 byte inputs; filter mode for all and FILE-operand mode '
-                'for a seeded share; an input is judged only if refbz AND libbz2 call it invalid; required: exit 1, diagnostic, no '
+                'stream kind, field-level and byte-level mutants, empty and 1-3 byte inputs; filter mode for most, FILE-operand mode for a seeded share, half of those with 0-2 intact operands in '
+                'front of the damaged one in the same invocation; an input is judged only if refbz AND libbz2 call it invalid; required: exit 1, diagnostic, no '
                 'signal, no hang, no output file; non-trivial = distinct invalid input that was judged')
     q = ctx.quick()
     rnd = ctx.rng('inputs')
@@ -100,7 +118,7 @@ def run(ctx):
     ntr = 0
     for name, data in tc:
         for k in range(len(data)):
-            items.append((data[:k], '%s:trunc@%d/%d' % (name, k, len(data)), rnd.random() < 0.1, rnd.choice([1, 2, 4])))
+            items.append((data[:k], '%s:trunc@%d/%d' % (name, k, len(data)), fm(rnd), rnd.choice([1, 2, 4])))
             ntr += 1
     ctx.extra['truncation_files'] = len(tc)
     ctx.extra['truncation_points_enumerated'] = ntr
@@ -114,11 +132,12 @@ def run(ctx):
                 raise
             except Exception:
                 continue
-            items.append((data, 'defect:' + kind, rnd.random() < 0.1, rnd.choice([1, 2, 4])))
+            items.append((data, 'defect:' + kind, fm(rnd), rnd.choice([1, 2, 4])))
     for b in (b'', b'B', b'BZ', b'BZh', b'BZh9', b'BZh1\x17', b'\0\0\0\0', b'BZh0' + b'x' * 40, rnd.randbytes(100), b'PK\x03\x04' + rnd.randbytes(50)):
         for w in (1, 3):
             items.append((b, 'tiny/wrong-magic', False, w))
-            items.append((b, 'tiny/wrong-magic', True, w))
+            items.append((b, 'tiny/wrong-magic', 1, w))
+            items.append((b, 'tiny/wrong-magic', 2, w))
     bases = [dcorpus.synth_valid(rnd)[0] for _ in range(6 if q else 60)]
     for p in dcorpus.repo_all_files():
         with open(p, 'rb') as f:
@@ -128,8 +147,8 @@ def run(ctx):
     for d in bases:
         v, info, _ = ora.refbz(d, want_out=False)
         for m, what in defects.field_mutants(rnd, d, info, 25 if q else 160):
-            items.append((m, 'mutant:' + what, rnd.random() < 0.1, rnd.choice([1, 2, 4])))
+            items.append((m, 'mutant:' + what, fm(rnd), rnd.choice([1, 2, 4])))
         for _ in range(15 if q else 120):
-            items.append((bs.byte_mutate(rnd, d), 'mutant:byte', rnd.random() < 0.1, rnd.choice([1, 2, 4])))
+            items.append((bs.byte_mutate(rnd, d), 'mutant:byte', fm(rnd), rnd.choice([1, 2, 4])))
     core.pmap(lambda it: judge(ctx, lb, it), items)
     ctx.assumptions = ['an input is "not a valid bzip2 file" when both refbz and libbz2 reject it']
